@@ -36,6 +36,13 @@ PROPS = {
             {'template': 'units/c05_stdlib_strings.rs.in', 'modes': [['MODE_OK'], ['MODE_ERR']], 'canary': True},
         ],
         'kani': [{'name': 'c05', 'jobs': 4, 'timeout': 1500}],
+        # the parser's slice syntax, the lowering of Index/Slice and emit_index_expr / emit_slice_expr produce and
+        # consume syntax trees / token streams through `&mut self` recursive descent and quote! interpolation:
+        # outside the verifier's reach. Bounded stand-in through the REAL lexer + parser + code generator.
+        'bounded_standins': [
+            {'oracle': 'incan::emit_slice', 'cases': 264, 'function': 'parser index_or_slice/parse_slice, lowering of Index/Slice, emit_index_expr, emit_slice_expr',
+             'bound': 'exhaustive over str/list target x {omitted, variable, 0, -1} start x same end x {omitted, variable, -1, 2} step x compact/spaced spelling, plus 4 index forms; one fixed program shape; checks the helper and the position of every bound in the generated call'},
+        ],
         'pins': [
             ('stdlib::str_index', {'s': 'héllo', 'i': 5}), ('stdlib::str_index', {'s': 'héllo', 'i': -6}), ('stdlib::str_index', {'s': 'héllo', 'i': -4}),
             ('stdlib::str_slice', {'s': 'héllo', 'start': None, 'end': None, 'step': 0}),
